@@ -27,6 +27,7 @@ RULE = (
     "Non-trivial = a value with an escape sequence, a modifier chain, or a transformed / correlation "
     "/ filter document."
 )
+RULE += (" " + 'Key-collision documents are drawn in addition: several items that serialise to one dict key (flag-alias spellings re|i / re|ignorecase without a pipeline, many-to-one field mappings with one, explicit |all items); reloaded queries may differ as text only if they are pairwise equivalent by truth table over the decoded leaves.')
 ASSUMPTIONS = [
     "queries are compared as strings of one backend (same code on both sides)",
     "only what the statement claims is asserted: dict form and queries, not object equality",
